@@ -326,7 +326,13 @@ func parsePCR(i *astikit.BytesIterator) (cr *ClockReference, err error) {
 }
 
 func writePacket(w *astikit.BitsWriter, p *Packet, targetPacketSize int) (written int, retErr error) {
-	// Make sure the payload fits before anything is written
+	// Make sure the packet can be written before anything is written
+	if p.Header.HasAdaptationField && p.AdaptationField == nil {
+		return 0, errors.New("writePacket: the header announces an adaptation field but there's none")
+	}
+	if p.Header.HasAdaptationField && p.AdaptationField.StuffingLength < 0 {
+		return 0, fmt.Errorf("writePacket: invalid stuffing length %d", p.AdaptationField.StuffingLength)
+	}
 	headerSize := 1 + mpegTsPacketHeaderSize
 	if p.Header.HasAdaptationField && p.AdaptationField != nil {
 		if p.AdaptationField.IsOneByteStuffing {
